@@ -41,6 +41,7 @@ SIG_DEFEQ = "Model._2par|array-input:default1d-domain,range-continuous1d-subclas
 SIG_SAMPLES = "Model._apply_func|samples-input:function-values,is_par=False"
 SIG_EQIDX = "Geometry._all_values_equal|array-input:Discrete-geometries-of-different-size:IndexError"
 SIG_EQKEY = "Geometry._all_values_equal|array-input:geometry-with-gradient-attribute-vs-equal-geometry-without:KeyError"
+SIG_SUBCLS = "Model._apply_func|input:CUQIarray-subclass:type-is-check"
 SIG_0D = "Model.forward|range:single-step-StepExpansion:0-d-output"
 SIG_TAGLEAK = "Model.gradient|wrt:CUQIarray,domain-geometry-with-gradient:subclass-tag-of-wrt.funvals-reaches-_2par"
 
@@ -267,7 +268,7 @@ class Geo:
             for ix in self.step_idx():
                 vals = [f[kk] for kk in ix]
                 pj = d["proj"]
-                out.append(max(vals) if pj == "max" else min(vals) if pj == "min" else sum(vals) / F(len(vals)))
+                out.append(max(vals) if pj == "max" else min(vals) if pj == "min" else sum(vals) * F(1, len(vals)))
             return out
         raise ValueError(k)
 
@@ -366,8 +367,8 @@ class Geo:
         else:
             f2p = "F2Base"
         if d.get("grad"):
-            grad = "(Some (GGStepSum %s))" % cnatll(self.step_idx()) if k == "step" else "(Some (GGDiag %s %s))" % (
-                qv(dcoef(ufs(d["cs"])) if "cs" in d else [F(1)]), GSTYLES[d.get("gstyle", "wrtfirst")])
+            grad = "(Some (GGStepSum %s))" % cnatll(self.step_idx()) if k == "step" else "(Some (GGDiag (pderiv %s) %s))" % (
+                qv(ufs(d["cs"]) if "cs" in d else [F(0), F(1)]), GSTYLES[d.get("gstyle", "wrtfirst")])
         else:
             grad = "None"
         vid = 1 if d.get("grid") else 0
@@ -517,7 +518,10 @@ def build_model(cuqi, meta, dg_obj, rg_obj):
             P.jacobian_wrt_parameter = lambda self, wrt: jac(wrt)
         if kind == "pde_both":           # deliberately different, so that the dispatch order is visible
             P.jacobian_wrt_parameter = lambda self, wrt: 2 * jac(wrt)
-        pde = P(lambda x: (np.eye(m), A @ horner(cs, x.ravel()) + b))
+        # PDE_form(x) = (Aop, Aop (A phi(x) + b)) with a unit triangular integer operator Aop (entries -1/0/1: LU with partial
+        # pivoting and the substitutions are exact), so that observe(solve(assemble(x))) = A phi(x) + b exactly
+        Aop = np.array(meta["pde_op"], dtype=float) if meta.get("pde_op") else np.eye(m)
+        pde = P(lambda x: (Aop.copy(), Aop @ (A @ horner(cs, x.ravel()) + b)))
         if meta.get("pde_inst"):          # attached to the PDE object instead of its class (hasattr sees both)
             for nm in ("gradient_wrt_parameter", "jacobian_wrt_parameter"):
                 if nm in P.__dict__:
@@ -547,8 +551,9 @@ def coq_model(meta):
         pg = lambda g: "(fun d w => img_fun2par %s %s (%s d w))" % (r, c, g)
     else:
         pj = pg = lambda x: x
-    pjac = lambda AA: pj("(poly_jac %s %s)" % (qm(AA), qv(dcs)))
-    pdir = "(poly_dir %s %s %s)" % (cnat(n), qm(A), qv(dcs))
+    # the derivative of the element-wise polynomial is computed by the model (pderiv), not handed over
+    pjac = lambda AA: pj("(poly_jac %s (pderiv %s))" % (qm(AA), qv(cs)))
+    pdir = "(poly_dir %s %s (pderiv %s))" % (cnat(n), qm(A), qv(cs))
     gf = {"jac": "(GJac %s %s %s)" % (cnat(n), pjac(A), jt),
           "dir": "(GDir %s %s %s)" % (pdir, shaped, msel),
           "nograd": "GNone",
@@ -568,6 +573,10 @@ def coq_model(meta):
 _PROBE = {}
 
 
+def _subcls(CUQIarray):
+    return _fn(("arrsubcls",), lambda: type("UserArray", (CUQIarray,), {"__doc__": "a user's subclass of CUQIarray"}))
+
+
 def probe(cuqi):
     if "q" in _PROBE:
         return _PROBE["q"]
@@ -583,12 +592,15 @@ def probe(cuqi):
     m = Model(lambda x: x, 1, g)
     out = m.forward(Samples(np.array([[1.0]])), is_par=False).samples
     samples_par = bool(out[0, 0] == 2.0)
-    _PROBE["q"] = (defeq, samples_par, eqidx)
+    from cuqi.array import CUQIarray
+    o = Model(lambda x: x, 1, 1).forward(_subcls(CUQIarray)(np.array([1.0])))
+    typeis = type(o) is not CUQIarray
+    _PROBE["q"] = (defeq, samples_par, eqidx, typeis)
     return _PROBE["q"]
 
 
 def coq_quirks(q):
-    return "(mkQ %s %s %s)" % (cbool(q[0]), cbool(q[1]), cbool(q[2]))
+    return "(mkQ %s %s %s %s)" % (cbool(q[0]), cbool(q[1]), cbool(q[3]), cbool(q[2]))
 
 
 # ------------------------------------------------------------------------------------------------
@@ -625,7 +637,12 @@ def observe_output(out, want_geom, also=()):
     if isinstance(out, CUQIarray):
         a = np.asarray(out)
         ok = (out.geometry is want_geom or any(out.geometry is g for g in also)) and out.is_par is True
-        return ({1: 1, 0: 4}.get(a.ndim, 9) if type(out) is CUQIarray else 9), [[frac(v) for v in a.ravel()]], ok
+        if type(out) is CUQIarray:
+            kind = {1: 1, 0: 4}.get(a.ndim, 9)
+        else:       # an instance of a subclass: 5/6 labelled is_par=True (1-d / 0-d), 7/8 labelled is_par=False
+            kind = (5 if out.is_par is True else 7) + {1: 0, 0: 1}.get(a.ndim, 90)
+            ok = (out.geometry is want_geom or out.geometry == want_geom) and out.is_par is True
+        return kind, [[frac(v) for v in a.ravel()]], ok
     if isinstance(out, np.ndarray):
         a = np.asarray(out)
         return {1: 0, 0: 3}.get(a.ndim, 9), [[frac(v) for v in a.ravel()]], True
@@ -648,6 +665,11 @@ def mk_input(cuqi, form, vals, gs, gobj_same, model_geom):
         return CUQIarray(shape_fun(gs, vals[0]), is_par=False, geometry=geom)
     if base == "arrdefault":
         return CUQIarray(np.array([float(x) for x in vals[0]]))
+    if base in ("subpar", "subfun"):
+        S_ = _subcls(CUQIarray)
+        if base == "subpar":
+            return S_(np.array([float(x) for x in vals[0]]), is_par=True, geometry=model_geom)
+        return S_(shape_fun(gs, vals[0]), is_par=False, geometry=model_geom)
     if base == "samples":
         return Samples(np.array([[float(x) for x in col] for col in vals]).T)
     if base == "samplesfun":
@@ -675,9 +697,32 @@ def coq_vec_input(form, vals, gs_coq, ctor_vec, ctor_arr, ctor_samples):
         return "(%s %s %s %s)" % (ctor_arr, gs_coq, cbool(base == "arrpar"), qv(vals[0]))
     if base == "arrdefault":
         return "(%s %s true %s)" % (ctor_arr, Geo(kind="default1d", n=len(vals[0])).coq(), qv(vals[0]))
+    if base in ("subpar", "subfun"):
+        return "(InSub %s %s %s)" % (gs_coq, cbool(base == "subpar"), qv(vals[0]))
     if base in ("samples", "samplesfun"):
         return ctor_samples(vals, base == "samplesfun")
     raise ValueError(form)
+
+
+def _snapshot(x):
+    from cuqi.samples import Samples
+    return np.array(x.samples if isinstance(x, Samples) else x, dtype=float, copy=True)
+
+
+def _replay_history(cuqi, model, meta, dgs, rgs):
+    """meta["history"]: earlier calls made on the SAME model object (same model description, other inputs): they are
+    re-made, results ignored, before the call under test -- a model object must not remember anything between calls"""
+    for h in meta.get("history", []):
+        try:
+            if h["op"] == "forward":
+                x = mk_input(cuqi, h["form"], [ufs(c) for c in h["vals"]], dgs, geom_object_for_copy(cuqi, dgs), model.domain_geometry)
+                model.forward(x, is_par=h["flag"])
+            else:
+                direction = mk_ginput(cuqi, h["dform"], ufs(h["d"]), rgs, geom_object_for_copy(cuqi, rgs), model.range_geometry)
+                wrt = mk_ginput(cuqi, h["wform"], ufs(h["w"]), dgs, geom_object_for_copy(cuqi, dgs), model.domain_geometry)
+                model.gradient(direction, wrt, is_direction_par=h["dform"].split("=")[0] != "fun", is_wrt_par=h["wform"].split("=")[0] != "fun")
+        except Exception:
+            pass
 
 
 def run_forward_case(cuqi, meta):
@@ -687,18 +732,22 @@ def run_forward_case(cuqi, meta):
     model, raw = build_model(cuqi, meta, dg_obj, rg_obj)
     vals = [ufs(c) for c in meta["vals"]]
     form, flag = meta["form"], meta["flag"]
+    _replay_history(cuqi, model, meta, dgs, rgs)
     x = mk_input(cuqi, form, vals, dgs, geom_object_for_copy(cuqi, dgs), model.domain_geometry)
+    before = _snapshot(x)
     try:
         out = model.forward(x, is_par=flag) if not meta.get("call") else model(x, is_par=flag)
         kind, cols, ok = observe_output(out, model.range_geometry)
         obs = ("val", kind, cols, ok)
     except Exception as e:
         obs = ("err", exc_class(e), repr(e)[:200])
+    if not np.array_equal(before, _snapshot(x)):
+        obs = ("err", "other:InputMutated", "the input array was modified in place")
     # ---- independent expectation
     A = [[Fraction(a) for a in row] for row in meta["A"]]
     cs, b = ufs(meta["cs"]), ufs(meta["b"])
     base = form.split("=")[0]
-    in_is_fun = base in ("fun", "arrfun") or (base == "samplesfun")
+    in_is_fun = base in ("fun", "arrfun", "subfun") or (base == "samplesfun")
     try:
         ecols = []
         for col in vals:
@@ -706,7 +755,7 @@ def run_forward_case(cuqi, meta):
             if len(f) != len(A[0]):
                 raise Refuse("shape")
             ecols.append(rgs.o_fun2par(o_F(A, cs, b, f)))
-        ekind = {"par": 0, "fun": 0, "arrpar": 1, "arrfun": 1, "arrdefault": 1, "samples": 2, "samplesfun": 2}[base]
+        ekind = {"par": 0, "fun": 0, "arrpar": 1, "arrfun": 1, "arrdefault": 1, "samples": 2, "samplesfun": 2, "subpar": 1, "subfun": 1}[base]
         exp = ("val", ekind, ecols)
     except Refuse as e:
         exp = ("err", str(e))
@@ -721,8 +770,10 @@ def compare(obs, exp):
         return "expected %s but the call raised %s" % (_show(exp), obs[2])
     if obs[1] in (3, 4) and obs[1] - 3 == exp[1]:
         return "0-d output %s where the range geometry has par_shape (1,): expected %s" % (_show(obs), _show(exp))
+    if obs[1] == 5 and exp[1] == 1 and obs[2] == exp[2] and obs[3]:
+        return None     # a subclass instance truthfully labelled as parameters of (a geometry equal to) the range geometry
     if obs[1] != exp[1]:
-        return "wrapper kind %s, expected %s (0 ndarray, 1 CUQIarray, 2 Samples, 3/4 the same but 0-d, 9 malformed)" % (obs[1], exp[1])
+        return "wrapper kind %s, expected %s (0 ndarray, 1 CUQIarray, 2 Samples, 3/4 the same but 0-d, 5-8 CUQIarray-subclass instance labelled is_par True/False, 9 malformed)" % (obs[1], exp[1])
     if obs[2] != exp[2]:
         return "values %s, expected (parameters of the range geometry) %s" % (_show(obs), _show(exp))
     if not obs[3]:
@@ -749,7 +800,7 @@ def forward_case(cuqi, meta, q):
     vals = [ufs(c) for c in meta["vals"]]
     xin = coq_vec_input(meta["form"], vals, dgs.coq(), "InVec", "InArr",
                         lambda vs, isfun: "(InSamples %s %s)" % (cbool(isfun and dgs.twod), clist([qv(c) for c in vs])))
-    okflag = obs[3] if obs[0] == "val" else True
+    okflag = obs[3] if obs[0] == "val" and obs[1] not in (5, 6, 7, 8) else True      # (a subclass instance's label is part of its kind)
     expr = "check_forward %s %s %s %s %s %s %s %s" % (coq_quirks(q), fwd, rgs.coq(), dgs.coq(), xin,
                                                       cbool(meta["flag"]), coq_obs(obs), cbool(okflag))
     fail = compare(obs, exp)
@@ -778,6 +829,8 @@ def run_gradient_case(cuqi, meta):
     wrt = mk_ginput(cuqi, wform, w, dgs, geom_object_for_copy(cuqi, dgs), model.domain_geometry)
     dpar = dform.split("=")[0] not in ("fun",) if "dpar" not in meta else meta["dpar"]
     wpar = wform.split("=")[0] not in ("fun",) if "wpar" not in meta else meta["wpar"]
+    _replay_history(cuqi, model, meta, dgs, rgs)
+    before = (_snapshot(direction), _snapshot(wrt))
     try:
         out = model.gradient(direction, wrt, is_direction_par=dpar, is_wrt_par=wpar)
         kind, cols, ok = observe_output(out, model.domain_geometry,
@@ -785,6 +838,8 @@ def run_gradient_case(cuqi, meta):
         obs = ("val", kind, cols, ok)
     except Exception as e:
         obs = ("err", exc_class(e), repr(e)[:200])
+    if not (np.array_equal(before[0], _snapshot(direction)) and np.array_equal(before[1], _snapshot(wrt))):
+        obs = ("err", "other:InputMutated", "direction or wrt was modified in place")
     # ---- independent expectation: transposed exact Jacobian of p -> fun2par_r(F(par2fun_d(p))) at wrt_par
     A = [[Fraction(a) for a in row] for row in meta["A"]]
     cs, b = ufs(meta["cs"]), ufs(meta["b"])
@@ -794,7 +849,7 @@ def run_gradient_case(cuqi, meta):
     dbase, wbase = dform.split("=")[0], wform.split("=")[0]
     if mk in ("nograd", "pde_none"):
         refusal_ok = "model has no gradient"
-    elif "samples" in (dbase, wbase):
+    elif dbase.startswith("samples") or wbase.startswith("samples"):
         refusal_ok = "Samples argument"
     elif not rgs.identity_like:
         refusal_ok = "range geometry is not identity-like"
@@ -852,6 +907,9 @@ def gradient_case(cuqi, meta, q):
     okflag = obs[3] if obs[0] == "val" else True
     expr = "check_gradient %s %s %s %s %s %s %s %s %s %s" % (coq_quirks(q), gf, rgs.coq(), dgs.coq(), din, win,
                                                             cbool(dpar), cbool(wpar), coq_obs(obs), cbool(okflag))
+    if meta.get("refusal_only"):      # Samples flagged as function values: only "refused" is compared, not the exception class
+        expr = "check_refused (gradient %s %s %s %s %s %s true true) %s" % (coq_quirks(q), gf, rgs.coq(), dgs.coq(), din, win,
+                                                                            cbool(obs[0] == "err" and obs[1] != "other:InputMutated"))
     fail = compare_gradient(obs, exp, refusal_ok)
     sig = gradient_signature(meta, obs, exp, q) if fail else ""
     cell = "grad/%s/%s->%s/d:%s,w:%s" % (meta["mk"], dgs.name(), rgs.name(), meta["dform"], meta["wform"])
@@ -929,6 +987,9 @@ def rename_case(cuqi, meta, q):
 def bind_case(cuqi, meta, q):
     dgs, rgs = Geo(**meta["dg"]), Geo(**meta["rg"])
     model, _ = build_model(cuqi, meta, dgs.build(cuqi), rgs.build(cuqi))
+    if meta.get("two_args"):       # a forward callable with two non-default arguments: every call is refused (one input only)
+        from cuqi.model import Model
+        model = Model(lambda x, y: x, rgs.build(cuqi), dgs.build(cuqi))
     if meta.get("renamed"):
         from cuqi.distribution import Gaussian
         model = model(Gaussian(np.zeros(dgs.pdim), 1, name=meta["renamed"]))
@@ -943,7 +1004,7 @@ def bind_case(cuqi, meta, q):
     except ValueError:
         accepted = False
     argname = fp["args"][0]
-    expect = (meta["npos"] == 1 and not meta["kws"]) or (meta["npos"] == 0 and meta["kws"] == [argname])
+    expect = ((meta["npos"] == 1 and not meta["kws"]) or (meta["npos"] == 0 and meta["kws"] == [argname])) and len(fp["args"]) == 1
     fail = None if accepted == expect else "forward(%d positional, keywords %s) on a model with argument %r: %s" % (
         meta["npos"], meta["kws"], argname, "accepted" if accepted else "refused")
     expr = "check_bind %s %s %s %s" % (coq_fp(fp), cnat(meta["npos"]), clist([cstr(k) for k in meta["kws"]]), cbool(accepted))
@@ -983,6 +1044,7 @@ def forward_signature(m, obs, exp, q):
     dg, rg = Geo(**m["dg"]), Geo(**m["rg"])
     base = m["form"].split("=")[0]
     arr = base in ("arrpar", "arrfun", "arrdefault")
+    sub = base in ("subpar", "subfun")
     err = obs[1] if obs[0] == "err" else None
     vals = [ufs(c) for c in m["vals"]]
     A = [[Fraction(a) for a in row] for row in m["A"]]
@@ -991,9 +1053,11 @@ def forward_signature(m, obs, exp, q):
     if rg.kind == "step" and rg.d["steps"] == 1 and obs[0] == "val" and exp[0] == "val" and obs[1] in (3, 4) \
             and obs[1] - 3 == exp[1] and obs[2] == exp[2]:
         return SIG_0D
-    if q[2] and arr and err == "EIndex" and dg.kind == "discrete" and rg.kind == "discrete" and dg.pdim != rg.pdim:
+    if q[3] and sub and obs[0] == "val" and exp[0] == "val" and obs[1] in (0, 3, 5, 6, 7, 8) and (obs[2] == exp[2] or q[0] or q[1]):
+        return SIG_SUBCLS       # right numbers (unless another open defect interferes), not re-wrapped as CUQIarray of the range geometry
+    if q[2] and (arr or sub) and err == "EIndex" and dg.kind == "discrete" and rg.kind == "discrete" and dg.pdim != rg.pdim:
         return SIG_EQIDX
-    if q[2] and arr and err == "EKey" and dg.kind in ("step", "mapped", "mapped_img", "cont1d") and dg.has_grad \
+    if q[2] and (arr or sub) and err == "EKey" and dg.kind in ("step", "mapped", "mapped_img", "cont1d") and dg.has_grad \
             and not rg.has_grad and _strip(dg) == _strip(rg):
         return SIG_EQKEY
     if q[0] and arr and dg.kind == "default1d" and rg.kind in ("step", "sub1d") and rg.nfun == dg.nfun and not rg.d.get("grid") \
@@ -1113,6 +1177,11 @@ def rand_model(rng, mk, nin, nout):
     return {"A": [[str(a) for a in row] for row in A], "cs": fs(cs), "b": fs(b)}
 
 
+def rand_unit_triangular(rng, m):
+    up = rng.random() < 0.5
+    return [[1 if i == j else (rng.randint(-1, 1) if ((j > i) if up else (j < i)) else 0) for j in range(m)] for i in range(m)]
+
+
 def model_allowed(mk, dg, rg, forward=True):
     """combinations in which the forward callable is well defined (see module docstring)"""
     if mk == "linmat" and (dg.twod or (rg.twod and forward)):
@@ -1127,7 +1196,7 @@ def run(ctx):
     rng = ctx.rng
     q = probe(cuqi)
     ctx.note("tree state: _DefaultGeometry1D equals Continuous1D subclasses = %s; Samples columns always treated as parameters = %s; "
-             "Discrete(m) == Discrete(n) raises IndexError = %s" % q)
+             "Discrete(m) == Discrete(n) raises IndexError = %s; CUQIarray subclass output not re-wrapped = %s" % q)
     cases = []
     reps = 1
 
@@ -1135,7 +1204,7 @@ def run(ctx):
         cases.append(fn(cuqi, meta, q))
 
     # ---------------- forward: model kind x domain x range x input form ----------------
-    fwd_forms = ["par", "fun", "arrpar", "arrpar=copy", "arrfun", "arrfun=copy", "samples", "samplesfun"]
+    fwd_forms = ["par", "fun", "arrpar", "arrpar=copy", "arrfun", "arrfun=copy", "samples", "samplesfun", "subpar", "subfun"]
     for rep in range(reps):
         for n in ([3, 4] if not ctx.thorough else [2, 3, 4, 5]):
             doms = geo_pool_1d(n, rng) + (geo_pool_2d(2, 2, rng) if n == 4 else [])
@@ -1160,12 +1229,14 @@ def run(ctx):
                             cols = []
                             for _ in range(ncols):
                                 p = rand_vec(rng, dg.pdim)
-                                cols.append(dg.o_par2fun(p) if base in ("fun", "arrfun", "samplesfun") else p)
+                                cols.append(dg.o_par2fun(p) if base in ("fun", "arrfun", "samplesfun", "subfun") else p)
                             flag = base not in ("fun", "samplesfun")
                             if base in ("arrpar", "arrfun") and rng.random() < 0.3:
                                 flag = not flag            # the keyword is irrelevant for a matching CUQIarray
                             meta = dict(op="forward", mk=mk, dg=dg.d, rg=rg.d, form=form, vals=[fs(c) for c in cols], flag=flag,
                                         call=rng.random() < 0.3, **mm)
+                            if mk.startswith("pde") and rng.random() < 0.6:
+                                meta["pde_op"] = rand_unit_triangular(rng, nout)
                             add(forward_case, meta)
     # ---- the default-geometry equality class, always (both array forms, step and user-subclass ranges)
     for n in [3, 4, 6]:
@@ -1253,6 +1324,8 @@ def run(ctx):
                                 meta["mstyle"] = rng.choice(["wrtfirst", "dirfirst", "strip"])
                             if mk == "jac":
                                 meta["jt"] = rng.random() < 0.4
+                            if mk.startswith("pde") and rng.random() < 0.6:
+                                meta["pde_op"] = rand_unit_triangular(rng, rg.nfun)
                             if wform == "samples":
                                 meta["wpar"] = True
                             add(gradient_case, meta)
@@ -1271,6 +1344,9 @@ def run(ctx):
     for inn in inners:
         wrapped.append(Geo(kind="mapped_over", inner=inn.d, cs=fs(aff_o), ics=fs(iaff_o)))
         wrapped.append(Geo(kind="mapped_over", inner=inn.d, cs=fs([0, 0, 1])))
+    # a decreasing outer map over projecting inner geometries: imap and the inner max/min projection do not commute
+    for pj in ["max", "min", "mean"]:
+        wrapped.append(Geo(kind="mapped_over", inner=Geo(kind="step", nodes=4, steps=2, proj=pj).d, cs=fs([1, -2]), ics=fs([F(1, 2), F(-1, 2)])))
     for wg in wrapped:
         for mk, extra in [("jac", {}), ("dir", {"mstyle": "dirfirst"}), ("linmat", {}), ("pde_gw", {"pde_inst": True})]:
             rg = rng.choice([Geo(kind="default1d", n=2), Geo(kind="cont1d", n=3), Geo(kind="discrete", n=2)])
@@ -1335,6 +1411,69 @@ def run(ctx):
                             meta.update(extra)
                             add(gradient_case, meta)
 
+    # ---- instances of a user subclass of CUQIarray as input, always
+    aff_s, iaff_s = [1, 2], [F(-1, 2), F(1, 2)]
+    sub_doms = [Geo(kind="cont1d", n=3), Geo(kind="mapped", n=3, cs=fs(aff_s), ics=fs(iaff_s)), Geo(kind="step", nodes=4, steps=2, proj="max"),
+                Geo(kind="image", r=2, c=2, order="F")]
+    for dg in sub_doms:
+        for rg in [Geo(kind="cont1d", n=2), Geo(kind="mapped", n=3, cs=fs(aff_s), ics=fs(iaff_s)), Geo(kind="step", nodes=2, steps=1, proj="mean"),
+                   Geo(kind="discrete", n=3), dg]:
+            for mk in ["jac", "linfun", "pde_gw"]:
+                if not model_allowed(mk, dg, rg):
+                    continue
+                mm = rand_model(rng, mk, dg.nfun, rg.nfun)
+                for form in ["subpar", "subfun", "arrpar"]:
+                    p = rand_vec(rng, dg.pdim, halves=False)
+                    meta = dict(op="forward", mk=mk, dg=dg.d, rg=rg.d, form=form, vals=[fs(dg.o_par2fun(p) if form == "subfun" else p)],
+                                flag=rng.random() < 0.7, call=False, **mm)
+                    add(forward_case, meta)
+
+    # ---- Samples flagged as function values given as `wrt` / `direction`: refused (only the refusal is compared), always
+    for dg in [Geo(kind="cont1d", n=3), Geo(kind="mapped", n=3, cs=fs(aff_s), ics=fs(iaff_s), grad=True), Geo(kind="image", r=2, c=2, order="C"),
+               Geo(kind="step", nodes=4, steps=2, proj="max", grad=True), Geo(kind="user", n=3, cs=fs(aff_s), grad=True)]:
+        rg = Geo(kind="cont1d", n=2)
+        for mk in ["jac", "linfun"]:
+            mm = rand_model(rng, mk, dg.nfun, rg.nfun)
+            for dform, wform in [("par", "samplesfun"), ("samplesfun", "par"), ("samplesfun", "samplesfun"), ("arrpar", "samplesfun")]:
+                p = rand_vec(rng, dg.pdim, halves=False)
+                meta = dict(op="gradient", mk=mk, dg=dg.d, rg=rg.d, dform=dform, wform=wform, d=fs(rand_vec(rng, rg.pdim)),
+                            w=fs(dg.o_par2fun(p) if wform == "samplesfun" else p), refusal_only=True,
+                            dpar=dform != "samplesfun", wpar=wform != "samplesfun", **mm)
+                add(gradient_case, meta)
+
+    # ---- histories: several calls on ONE model object (PDE models keep the assembled system in the PDE object; an earlier
+    #      call may have been refused); every call is compared, with the earlier ones re-made first
+    hist_specs = [("pde_gw", Geo(kind="mapped", n=3, cs=fs(aff_s), ics=fs(iaff_s), grad=True), Geo(kind="cont1d", n=3), True),
+                  ("pde_jw", Geo(kind="cont1d", n=3), Geo(kind="default1d", n=2), True),
+                  ("jac", Geo(kind="step", nodes=4, steps=2, proj="max", grad=True), Geo(kind="discrete", n=3), False),
+                  ("linmat", Geo(kind="cont1d", n=3), Geo(kind="cont1d", n=3), False),
+                  ("dir", Geo(kind="image", r=2, c=2, order="F"), Geo(kind="cont1d", n=2), False)]
+    for mk, dg, rg, with_op in hist_specs:
+        mm = rand_model(rng, mk, dg.nfun, rg.nfun)
+        if with_op:
+            mm["pde_op"] = rand_unit_triangular(rng, rg.nfun)
+        history = []
+        plan = ["fwd:par", "grad:par,par", "fwd:arrfun", "fwd:bad", "grad:arrpar,arrfun", "fwd:samples", "fwd:par"]
+        for step in plan:
+            kind, forms = step.split(":")
+            if kind == "fwd":
+                if forms == "bad":      # wrong length: refused, must leave nothing behind
+                    meta = dict(op="forward", mk=mk, dg=dg.d, rg=rg.d, form="par", vals=[fs(rand_vec(rng, dg.pdim + 1))], flag=True, call=False, **mm)
+                    history.append({k_: v_ for k_, v_ in meta.items() if k_ in ("op", "form", "vals", "flag")})
+                    continue
+                cols = [rand_vec(rng, dg.pdim, halves=False) for _ in range(2 if forms == "samples" else 1)]
+                vals = [fs(dg.o_par2fun(c) if forms == "arrfun" else c) for c in cols]
+                meta = dict(op="forward", mk=mk, dg=dg.d, rg=rg.d, form=forms, vals=vals, flag=True, call=False, history=list(history), **mm)
+                add(forward_case, meta)
+                history.append({k_: v_ for k_, v_ in meta.items() if k_ in ("op", "form", "vals", "flag")})
+            else:
+                dform, wform = forms.split(",")
+                p = rand_vec(rng, dg.pdim, halves=False)
+                meta = dict(op="gradient", mk=mk, dg=dg.d, rg=rg.d, dform=dform, wform=wform, d=fs(rand_vec(rng, rg.pdim)),
+                            w=fs(dg.o_par2fun(p) if wform == "arrfun" else p), history=list(history), **mm)
+                add(gradient_case, meta)
+                history.append({k_: v_ for k_, v_ in meta.items() if k_ in ("op", "dform", "wform", "d", "w")})
+
     # ---------------- rename on a distribution; argument binding ----------------
     for rep in range(ctx.n(2, 10)):
         for mk in MODEL_KINDS:
@@ -1353,10 +1492,14 @@ def run(ctx):
                 renamed = rng.choice([None, "z"])
                 meta = dict(op="bind", mk=mk, dg=dg.d, rg=rg.d, npos=npos, kws=kws, renamed=renamed, p=fs(rand_vec(rng, dg.pdim)), **mm)
                 add(bind_case, meta)
+            if rep == 0:      # forward callable with two inputs: every way of calling it is refused
+                for npos, kws in [(1, []), (2, []), (0, ["x"]), (0, ["x", "y"]), (1, ["y"]), (3, [])]:
+                    add(bind_case, dict(op="bind", mk=mk, dg=dg.d, rg=rg.d, npos=npos, kws=kws, renamed=None, two_args=True,
+                                        p=fs(rand_vec(rng, dg.pdim)), **mm))
 
     return Result(cases=cases, rule=RULE,
                   extra={"tree_state": {"default1d_eq_accepts_subclasses": q[0], "samples_flag_ignored": q[1],
-                                        "discrete_eq_indexerror": q[2]}},
+                                        "discrete_eq_indexerror": q[2], "cuqiarray_subclass_not_rewrapped": q[3]}},
                   assumptions=["numpy @, reshape/ravel(order), elementwise + and * are exact on the small integer/dyadic data generated",
                                "scipy.linalg.solve on an identity matrix is exact (PDEModel cells)",
                                "the forward callable, the user Jacobian / direction-Jacobian product and the user geometry gradient are "
@@ -1409,7 +1552,10 @@ W_EQIDX = dict(op="forward", mk="linmat", dg=dict(kind="discrete", n=4), rg=dict
 W_EQKEY = dict(op="forward", mk="jac", dg=dict(kind="step", nodes=4, steps=2, proj="max", grad=True),
                rg=dict(kind="step", nodes=4, steps=2, proj="max"), form="arrpar", vals=[["1", "2"]], flag=True, call=False,
                A=[[("1" if i == j else "0") for j in range(4)] for i in range(4)], cs=["0", "1"], b=["0"] * 4)
-WITNESSES = {SIG_EQIDX: W_EQIDX, SIG_EQKEY: W_EQKEY, SIG_DEFEQ: W_DEFEQ, SIG_SAMPLES: W_SAMPLES, SIG_0D: W_0D, SIG_TAGLEAK: W_TAGLEAK}
+W_SUBCLS = dict(op="forward", mk="jac", dg=dict(kind="cont1d", n=3), rg=dict(kind="mapped", n=2, cs=["1", "2"], ics=["-1/2", "1/2"]),
+                form="subpar", vals=[["1", "2", "3"]], flag=True, call=False,
+                A=[["1", "0", "1"], ["0", "2", "1"]], cs=["0", "1"], b=["1", "1"])
+WITNESSES = {SIG_SUBCLS: W_SUBCLS, SIG_EQIDX: W_EQIDX, SIG_EQKEY: W_EQKEY, SIG_DEFEQ: W_DEFEQ, SIG_SAMPLES: W_SAMPLES, SIG_0D: W_0D, SIG_TAGLEAK: W_TAGLEAK}
 
 
 def known_witnesses(ctx):
